@@ -203,18 +203,15 @@ func (s *Translator) Enter(expression cypher.SyntaxNode) {
 		})
 
 	case *cypher.Parameter:
-		var (
-			cypherIdentifier = pgsql.Identifier(typedExpression.Symbol)
-			binding, bound   = s.scope.AliasedLookup(cypherIdentifier)
-		)
+		binding, bound := s.scope.ParameterLookup(typedExpression.Symbol)
 
 		if !bound {
 			if parameterBinding, err := s.scope.DefineNew(pgsql.ParameterIdentifier); err != nil {
 				s.SetError(err)
 			} else {
 				// Alias the old parameter identifier to the synthetic one
-				if cypherIdentifier != "" {
-					s.scope.Alias(cypherIdentifier, parameterBinding)
+				if typedExpression.Symbol != "" {
+					s.scope.AliasParameter(typedExpression.Symbol, parameterBinding)
 				}
 
 				parameterValue := s.resolveParameterValue(typedExpression)
